@@ -17,7 +17,8 @@ RULE = ('generated float models of depth <= 6 over the coverage-table operators 
         'constant.  The first operator whose output leaves 25% of its own magnitude while its inputs are inside 5% is reported.  A model is admitted only if '
         'every float activation has non-zero range on x.  A unit is one (model, config, x); distinct by digest; non-trivial iff the model '
         'has >=2 operators and every output is integer-typed')
-ASSUMPTIONS = ['the bound is deliberately loose: the property is about gross failures (constant / saturated / non-finite outputs)',
+ASSUMPTIONS = ['a model whose quantized bias saturates INT32/INT64 (bias/(input_scale*weight_scale) does not fit; permitted by C05) is not judged',
+               'the bound is deliberately loose: the property is about gross failures (constant / saturated / non-finite outputs)',
                f'K={K_STEPS:g}, alpha={ALPHA:g}/{ALPHA_W4:g} frozen from the measured distribution (12k cases: 8-bit weights all < 0.05 A with the '
                'step term adding >= 6% of the output range; 4-bit weights reach 0.5 A through weight rounding alone); the histogram of '
                'err/A per config class is in the evidence',
@@ -118,10 +119,28 @@ def bmm_const_channelwise(src, per_channel_weights):
   return False
 
 
+def bias_saturated(mo):
+  """A quantized bias sits at the INT32/INT64 limit: bias/(input_scale*weight_scale) does not fit (tiny weights or tiny input
+  range with an O(1) bias).  C05's statement permits this; the output error is then unbounded and not C07's to judge."""
+  for sg in mo.subgraphs:
+    for t in sg.tensors:
+      if t.type in (TT.INT32, TT.INT64) and decode.qparams(t) is not None:
+        raw = decode.raw(mo.buffers[t.buffer])
+        if raw:
+          v = decode.decode(t, raw).astype(np.int64)
+          info = np.iinfo(decode.NP[t.type])
+          if v.size and (v.max() >= info.max or v.min() <= info.min + 1):
+            return True
+  return False
+
+
 def evaluate(ctx, spec, src, run, sig, x, ref, weight_bits, act_bits, per_channel_weights, base, label):
   """Runs the quantized model on x inside ctx.risky and applies the C07 oracle.  Returns True when every output was integer."""
   f_outs, f_tens, A = ref
   mo = models.read(run.out)
+  if bias_saturated(mo):
+    ctx.count('bias_saturated_not_judged')
+    return True
   feats = {'act_bits': act_bits, 'weight_bits': weight_bits,
            'bmm_const_rhs_channelwise': bmm_const_channelwise(src, per_channel_weights)}
   state = {'all_q': True}
